@@ -138,16 +138,108 @@ Definition act_msgs (a : act) : list msg :=
 
 Definition big_frame (m : msg) : bool := BUFSZ <? zlen (encode_flushed m).
 
+(* ---- bytes / end-of-stream delivered to ANOTHER connection than the one the frame's
+   address pair names, judged on the observation:
+   - the connections are the observed accepts, in order, each with the pair it was
+     surfaced with;
+   - bytes: (the first 32 bytes of) the payload of a data message addressed to pair X
+     turn up in what a service READ on a connection surfaced with a pair Y <> X, and do
+     not belong to that connection's own stream;
+   - end: a service Read returns io.EOF on a connection that is still open and empty
+     according to every frame addressed to ITS pair, after an eof frame naming another
+     pair was sent.
+   Pairs are compared structurally ([pair_key]: both addresses, IP in 16-byte form and
+   port) - never through a text built from them. *)
+Definition SIG_MISDELIVERED := 13%N.
+
+Definition act_conn (a : act) : option nat :=
+  match a with ARead c _ => Some c | APark c _ _ => Some c | _ => None end.
+
+(* what the service read on connection c *)
+Fixpoint stream_of (c : nat) (acts : list act) (rs : list res) : bytes :=
+  match acts, rs with
+  | a :: acts', r :: rs' =>
+    match act_conn a, r with
+    | Some c', RData b => if Nat.eqb c c' then b ++ stream_of c acts' rs' else stream_of c acts' rs'
+    | _, _ => stream_of c acts' rs'
+    end
+  | _, _ => []
+  end.
+
+Fixpoint acc_pairs (rs : list res) : list (option pkey) :=
+  match rs with
+  | [] => []
+  | RAcc l r :: rs' => pair_key l r :: acc_pairs rs'
+  | _ :: rs' => acc_pairs rs'
+  end.
+
+Fixpoint starts_with (needle hay : bytes) : bool :=
+  match needle, hay with
+  | [], _ => true
+  | x :: n', y :: h' => (x =? y)%N && starts_with n' h'
+  | _ :: _, [] => false
+  end.
+Fixpoint occurs (needle hay : bytes) : bool :=
+  match hay with
+  | [] => match needle with [] => true | _ => false end
+  | _ :: t => starts_with needle hay || occurs needle t
+  end.
+
+Definition data_frames (acts : list act) : list (option pkey * bytes) :=
+  flat_map (fun m => match m with MData l r p => [(pair_key l r, p)] | _ => [] end) (flat_map act_msgs acts).
+
+Definition foreign_bytes (own : option pkey) (got want : bytes) (f : option pkey * bytes) : bool :=
+  let '(k, p) := f in
+  negb (opkey_eqb k own) && (4 <=? zlen p) &&
+  (let needle := firstn 32 p in occurs needle got && negb (occurs needle want)).
+
+Fixpoint misdelivered_bytes (acts : list act) (spec obs : list res) (c : nat) (conns : list (option pkey)) : bool :=
+  match conns with
+  | [] => false
+  | own :: rest =>
+    existsb (foreign_bytes own (stream_of c acts obs) (stream_of c acts spec)) (data_frames acts)
+    || misdelivered_bytes acts spec obs (S c) rest
+  end.
+
+Definition is_foreign_eof (own : option pkey) (m : msg) : bool :=
+  match m with MEof l r => negb (opkey_eqb (pair_key l r) own) | _ => false end.
+
+(* [eofs]: the eof frames sent so far *)
+Fixpoint misdelivered_eof (conns : list (option pkey)) (eofs : list msg) (acts : list act) (spec obs : list res) : bool :=
+  match acts, spec, obs with
+  | a :: acts', x :: spec', y :: obs' =>
+    (match act_conn a, x, y with
+     | Some c, RTimeout, REof =>
+       match nth_error conns c with
+       | Some own => existsb (is_foreign_eof own) eofs
+       | None => false
+       end
+     | _, _, _ => false
+     end)
+    || misdelivered_eof conns (eofs ++ act_msgs a) acts' spec' obs'
+  | _, _, _ => false
+  end.
+
+Definition misdelivered (acts : list act) (spec obs : list res) : bool :=
+  let conns := acc_pairs obs in
+  misdelivered_bytes acts spec obs 0 conns || misdelivered_eof conns [] acts spec obs.
+
 Definition scase_sig (c : scase) : N :=
   let '(_, rs, fs) := run ideal_wire sess0 (sc_acts c) in
   if list_eqb res_eqb rs (sc_res c) && list_eqb msg_eqb fs (sc_frames c) then 0%N
   else if existsb big_frame (flat_map act_msgs (sc_acts c) ++ fs)
           && ((first_diff rs (sc_res c) =? 0) || (first_diff rs (sc_res c) =? SIG_STREAM))%N
        then SIG_LARGE_FRAME  (* stream/frame deviation in a run carrying a frame above 4096 bytes *)
+  else if misdelivered (sc_acts c) rs (sc_res c) then SIG_MISDELIVERED
   else match first_diff rs (sc_res c) with
        | 0%N => SIG_FRAMES
        | s => s
        end.
+
+(* ---- address text cases (correspondence only): Laddr.String() ++ Raddr.String() as
+   Go prints it, for pairs of 4-byte-IP addresses, against [concat_key] ---- *)
+Record kcase := mkKCase { kc_id : N; kc_l : addr; kc_r : addr; kc_text : bytes }.
+Definition kcase_mismatch (c : kcase) : bool := negb (eqb_bytes (concat_key (kc_l c) (kc_r c)) (kc_text c)).
 
 (* ---- unsynchronised runs: what one service read vs. what the agent sent for it ---- *)
 Record tcase := mkTCase { tc_id : N; tc_sent : bytes; tc_got : bytes }.
@@ -165,14 +257,15 @@ Definition tcase_sig (c : tcase) : N :=
   if eqb_bytes (tc_got c) (tc_sent c) then 0%N
   else if is_prefix (tc_got c) (tc_sent c) then SIG_LOST_AT_CLOSE else SIG_STREAM.
 
-Inductive case := CC (c : ccase) | CR (c : rcase) | CS (c : scase) | CT (c : tcase).
+Inductive case := CC (c : ccase) | CR (c : rcase) | CS (c : scase) | CT (c : tcase) | CK (c : kcase).
 
 Definition case_id (c : case) : N :=
-  match c with CC x => cc_id x | CR x => rc_id x | CS x => sc_id x | CT x => tc_id x end.
+  match c with CC x => cc_id x | CR x => rc_id x | CS x => sc_id x | CT x => tc_id x | CK x => kc_id x end.
 Definition case_mismatch (c : case) : bool :=
-  match c with CC x => ccase_mismatch x | CR x => rcase_mismatch x | CS x => scase_mismatch x | CT x => tcase_mismatch x end.
+  match c with CC x => ccase_mismatch x | CR x => rcase_mismatch x | CS x => scase_mismatch x | CT x => tcase_mismatch x
+  | CK x => kcase_mismatch x end.
 Definition case_sig (c : case) : N :=
-  match c with CC x => ccase_sig x | CR _ => 0%N | CS x => scase_sig x | CT x => tcase_sig x end.
+  match c with CC x => ccase_sig x | CR _ => 0%N | CS x => scase_sig x | CT x => tcase_sig x | CK _ => 0%N end.
 
 Definition mismatches (cs : list case) : list N :=
   map case_id (filter case_mismatch cs).
@@ -180,7 +273,7 @@ Definition violations (cs : list case) : list (N * N) :=
   flat_map (fun c => let s := case_sig c in if (s =? 0)%N then [] else [(case_id c, s)]) cs.
 
 (* tags: codec 1..7 by message type (+20 when the encoding exceeds 4090 bytes), raw 30,
-   session 40 + number of surfaced connections; unsynchronised stream 50; 0 = Ping codec case / empty stream *)
+   session 40 + number of surfaced connections; unsynchronised stream 50; address text 60; 0 = Ping codec case / empty stream *)
 Definition count_acc (rs : list res) : N :=
   N.of_nat (length (filter (fun r => match r with RAcc _ _ => true | _ => false end) rs)).
 Definition tags (cs : list case) : list (N * N) :=
@@ -193,5 +286,6 @@ Definition tags (cs : list case) : list (N * N) :=
                  | CR _ => 30
                  | CS x => 40 + count_acc (sc_res x)
                  | CT x => if eqb_bytes (tc_sent x) [] then 0 else 50
+                 | CK _ => 60
                  end)%N) cs.
 
